@@ -189,6 +189,18 @@ def emit_tftpd(env):
                                  'self.last_ack_size = None', 'self.blocks_read = 0', 'self.blocks = {}',
                                  'self.last_send = None', 'self.started = self.last_recv = time_ns()'))
     L.append(f'Definition client_state_defaults_standard : bool := {coq_bool(ok)}.')
+    # every transfer on a port of its own: the sub-server binds (host, 0) WITHOUT address / port reuse (with SO_REUSEADDR
+    # the kernel may hand out, for an ephemeral UDP bind, a port another reusing socket already holds)
+    sub = find_class(t, 'TFTPSubServer')
+    attrs = class_consts(sub) if 'class_consts' in globals() else {}
+    reuse = False
+    for n in sub.body:
+        if isinstance(n, ast.Assign) and any(ast.unparse(x) in ('allow_reuse_address', 'allow_reuse_port') for x in n.targets):
+            if not (isinstance(n.value, ast.Constant) and n.value.value is False):
+                reuse = True
+    sinit = ast.unparse(find_func(sub.body, '__init__'))
+    eph = 'address = (host, 0) + tuple(suffix)' in sinit and 'super().__init__(address, TFTPSubHandler)' in sinit
+    L.append(f'Definition subserver_binds_private_port : bool := {coq_bool(eph and not reuse)}.')
     # canonical forms of the control-flow-heavy methods that are modelled by hand
     import hashlib
     def canon(cls, fn):
